@@ -3,19 +3,25 @@ import json
 from .common import load_corpus, rbytes
 from . import wiregen
 
-MAKE_TARGETS = ['Proofs/RpcHex.vo', 'Proofs/RpcNum.vo', 'Proofs/RpcErr.vo', 'Proofs/RpcSend.vo', 'Proofs/Rpc.vo']
+MAKE_TARGETS = ['Proofs/RpcHex.vo', 'Proofs/RpcNum.vo', 'Proofs/RpcErr.vo', 'Proofs/RpcSend.vo', 'Proofs/Rpc.vo',
+                'Proofs/RpcFlocq.vo']
 TIES = []
-ALLOWED_AXIOMS = []
-PARTIAL = ['C19_send_exact_partial: the amount sent denotes exactly a/10^8 for 0 <= a <= 21e14 is proved for the '
-           'MODEL of the float step (float(a)/COIN = Model.rn53 a COIN, round-to-nearest-even to 53 bits; repr = '
-           'Model.shortest_dec, the shortest decimal that rounds back). Missing: a kernel proof that CPython float '
-           'division / float.__repr__ are these functions (no link to Flocq Bdiv / PrimFloat); that step is tied by '
-           'engine 1904 (binary64 bit patterns and the exact value of the JSON text) only. The float-free core '
-           '(C19_send_core_Q, C19_send_half_ulp, C19_send_ulp_money_range) is proved in full.']
+# the four theorems that speak about Flocq's binary64 (C19_send_rn53_is_ieee_rounding, C19_send_float_div_is_Bdiv,
+# C19_send_exact_ieee, C19_send_read_back_sound) use Coq's Reals: the standard axioms of the real numbers, as
+# foreseen in DESIGN.md section 4.  All other theorems are closed under the global context.
+ALLOWED_AXIOMS = [r'ClassicalDedekindReals\.sig_not_dec', r'ClassicalDedekindReals\.sig_forall_dec',
+                  r'FunctionalExtensionality\.functional_extensionality_dep', r'Classical_Prop\.classic']
+PARTIAL = []
 ASSUMPTIONS = ['CPython json / decimal (default context prec=28, ROUND_HALF_EVEN, Emax=999999) / int / float / '
                'binascii semantics are modelled, not verified',
-               'float step: float(a)/COIN is IEEE-754 binary64 round-to-nearest-even division and json.dumps writes the '
-               'shortest round-tripping repr (CPython documented behaviour; checked as bit patterns by engine 1904)',
+               'float step: CPython float(a)/COIN is IEEE-754 binary64 division with round-to-nearest-even. The MODEL of it '
+               '(Model.rn53, integer arithmetic) is PROVED equal to Flocq BinarySingleNaN.Bdiv mode_NE '
+               '(C19_send_float_div_is_Bdiv); that the C double division of the platform is that function is trusted and '
+               'checked as bit patterns by engine 1904',
+               'repr step: json.dumps writes float.__repr__, the shortest decimal that reads back as the same double '
+               '(CPython documented guarantee), modelled by Model.shortest_dec and checked by engine 1904 as the exact '
+               'value of the text. C19_send_exact_ieee does not depend on that model: every decimal of at most 8 places '
+               'that reads back is exact, and a*10^-8 reads back',
                'reply strings are valid UTF-8; bodies of kind "not JSON" are rejected by json.loads (checked by the '
                'generator with CPython json); object members named `address` (CBitcoinAddress, C12) and non-integer '
                '`vout` are outside the modelled domain of listunspent',
